@@ -20,6 +20,7 @@ from bobocep.cep.action.handler import BoboActionHandlerBlocking
 from bobocep.cep.engine.decider.decider import BoboDecider
 from bobocep.cep.engine.decider.pubsub import BoboDeciderSubscriber
 from bobocep.cep.engine.engine import BoboEngine
+from bobocep import BoboError
 from bobocep.cep.engine.forwarder.forwarder import BoboForwarder
 from bobocep.cep.engine.producer.producer import BoboProducer
 from bobocep.cep.engine.producer.pubsub import BoboProducerSubscriber
@@ -146,6 +147,21 @@ class DecRecorder(BoboDeciderSubscriber):
         return None
 
 
+class Bomb(BoboDeciderSubscriber):
+    """a decider subscriber subscribed AFTER everybody else that fails on the notifications carrying a finished run (a sink
+    that is full, a link object that was closed): the caller of update() gets the exception and carries on.  What the
+    decider did for the event is done, and every subscriber before this one has been told -- once."""
+
+    def __init__(self):
+        self.armed, self.fired, self.count = False, False, 0
+
+    def on_decider_update(self, completed, halted, updated, local):
+        if self.armed and (completed or halted):
+            self.count += 1
+            self.fired = True
+            raise (RuntimeError, BoboError, OSError)[self.count % 3]('the sink is full')
+
+
 class CERecorder(BoboProducerSubscriber):
     def __init__(self):
         self.events = []          # (pattern, history text, local, run-independent key)
@@ -220,6 +236,8 @@ class Inst:
             self.tcp._running = True
             self.tcp._now = clock.now
             self.tcp._tcp_send = self._send
+        self.bomb = Bomb()
+        self.decider.subscribe(self.bomb)
         self._wrap_decider()
 
     # ---- recording of decider calls (model protocol lines) ----
@@ -246,9 +264,19 @@ class Inst:
             waiting = dec.size()
             ev = mirror[0] if (waiting > 0 and mirror) else None
             n0 = len(inst.drec.notifs)
+            inst.bomb.fired = False
             try:
                 ch = orig_update()
             except Exception:
+                if inst.bomb.fired:
+                    ch = True           # (a notification went out, so there was a change; the failing sink is the harness's own)
+                    if ev is not None and dec.size() < waiting:
+                        mirror.pop(0)
+                        new = inst.drec.notifs[n0:]
+                        n = new[0] if new else ([], [], [], True)
+                        inst.trace.append(('ev ' + ' '.join(pl.show_event(ev).split(':')),
+                                           f"1 C{pl.show_recs(n[0])} H{pl.show_recs(n[1])} U{pl.show_recs(n[2])} | {inst.table()}"))
+                    raise
                 if ev is not None and dec.size() < waiting:
                     mirror.pop(0)
                 if ev is not None:
@@ -269,11 +297,13 @@ class Inst:
             op = 'rem' + ''.join(' ' + k + ''.join(' ' + pl.show_rec(r) for r in lst)
                                  for k, lst in (('C', completed), ('H', halted), ('U', updated)) if lst)
             n0 = len(inst.drec.notifs)
+            inst.bomb.fired = False
             try:
                 orig_remote(completed=completed, halted=halted, updated=updated)
             except Exception:
-                inst.trace.append((op, 'X'))
-                raise
+                if not inst.bomb.fired:
+                    inst.trace.append((op, 'X'))
+                    raise
             # the engine thread may have slipped in a local update of its own (receive_racing_engine): the remote one is the
             # notification marked local=False
             n = [x for x in inst.drec.notifs[n0:] if not x[3]][-1]
@@ -298,7 +328,12 @@ class Inst:
             if (self.receiver.size() == 0 and self.decider.size() == 0 and self.producer.size() == 0
                     and self.forwarder.size() == 0 and self.handler.size() == 0):
                 return
-            self.engine.update()
+            try:
+                self.engine.update()
+            except Exception:
+                if not self.bomb.fired:
+                    raise
+                self.bomb.fired = False          # the application logs the failing sink and carries on
         raise RuntimeError('engine did not settle')
 
     def outgoing_pass(self, inject=None):
@@ -424,7 +459,7 @@ class Net:
 
 
 class Cluster:
-    def __init__(self, names, phens, cache=1000, periods=None, with_action=True, clock0=1000, via_setup=False, quiet=()):
+    def __init__(self, names, phens, cache=1000, periods=None, with_action=True, clock0=1000, via_setup=False, quiet=(), bomb=()):
         self.names, self.phens, self.cache, self.periods = list(names), phens, cache, periods
         self.quiet = set(quiet)       # instances cold-started WITHOUT announcing themselves (flag_reset=False); a restart announces
         self.via_setup = via_setup
@@ -433,13 +468,16 @@ class Cluster:
         self.net = Net()
         self.devices = [(n, 'k' + n) for n in names] if len(names) > 1 else []
         self.with_action = with_action
+        self.bombed = set(bomb)       # instances with a decider subscriber that fails on finished runs (class Bomb)
         self.insts: Dict[str, Inst] = {n: self._mk(n, 0, flag_reset=n not in self.quiet) for n in names}
         self.dead: List[Inst] = []
         self.gens = {n: 0 for n in names}
 
     def _mk(self, n, gen, flag_reset=True):
-        return Inst(n, gen, self.phens, self.devices, self.cache, self.net, self.clock, self.periods,
+        inst = Inst(n, gen, self.phens, self.devices, self.cache, self.net, self.clock, self.periods,
                     self.with_action, flag_reset=flag_reset, via_setup=self.via_setup)
+        inst.bomb.armed = n in getattr(self, 'bombed', ())
+        return inst
 
     def live(self):
         return [i for i in self.insts.values() if i.alive]
